@@ -67,7 +67,7 @@ class CallMixin:
         return super().lookup_name(name, st)
 
     SPEC_BUILTINS = ("implies", "iff", "ite", "dom", "is_none", "some", "has_class", "lang_re", "in_re", "select", "to_real", "str_at",
-                     "ext_const", "bn", "select_eq", "card_int", "is_int", "card_val", "seq_eq", "dict_eq_on", "fresh_obj", "alloc", "is_alloc", "heap_eq", "str_len", "str_from_int")
+                     "same_except", "list_eq", "is_append", "is_empty_list", "unboxed", "ext_const", "bn", "select_eq", "card_int", "is_int", "card_val", "seq_eq", "dict_eq_on", "fresh_obj", "alloc", "is_alloc", "heap_eq", "str_len", "str_from_int")
 
     def builtin(self, st, name, args, kwargs, node):
         a = args
@@ -101,8 +101,10 @@ class CallMixin:
         elif name in ("min", "max") and len(a) == 2 and a[0].ty == a[1].ty == T.Int:
             c = a[0].t <= a[1].t if name == "min" else a[0].t >= a[1].t
             yield st, SV(T.Int, z3.If(c, a[0].t, a[1].t))
-        elif name == "isinstance" or name == "type":
-            raise VCError("%s handled in compare/isinstance only" % name)
+        elif name == "type":
+            yield st, SV(PyFunc, ("typeof", a[0]))
+        elif name == "isinstance":
+            yield st, SV(T.Bool, self.ev_isinstance(st, a[0], a[1]))
         elif name == "set" and not a: yield st, SV(Display, [])
         elif name == "list" and not a: yield st, SV(Display, [])
         elif name == "print": yield st, SV(T.NoneT, z3.BoolVal(True))
@@ -143,6 +145,8 @@ class CallMixin:
         if ty == T.Str:
             yield st, self.str_method(st, recv, name, args, node); return
         def writeback(newval):
+            if recv.box is not None:
+                self.hwrite(st, recv.box[0], "val", recv.box[1], newval.t); yield st; return
             if recv_node is None: raise VCError("mutation of a non-lvalue container")
             yield from self.assign(recv_node, newval, st, quiet=True)
         if isinstance(ty, T.List):
